@@ -126,6 +126,17 @@ PROPS = {
             {"name": "srvbin-ws", "component": "srvbin", "gen": "srvbin", "opts": {"transport": "ws"}, "pool_binary": True, "cases": {"quick": 12, "thorough": 80}, "no_shrink": True},
         ],
     },
+    "C17": {
+        "level_text": "chunking_independent (what the persistent-decoder codec delivers depends only on the concatenation of the reads) and stream_exactly_once (for every sequence of framed messages and every chunking, exactly the written messages, in order), locked_writers_do_not_interleave, ws_one_message_per_frame are Lean theorems about the byte-level reader model, by induction over unbounded streams; per_message_reader_counterexample keeps the witness of the repaired defect. The model is compared with the real IOCodec on byte streams produced by the real WriteMessage and cut at generated positions; gorilla (concurrent writers) and gobwas codecs are run over loopback WebSocket connections.",
+        "level_note": "Theorems are about Model/Codec.lean (brace depth outside string literals, escapes); that encoding/json's decoder finds the same message ends is checked differentially on generated messages (braces/escapes/unicode inside strings, nested params, 0 to 5000-byte payloads). Trusted: encoding/json, gorilla/gobwas framing, the write mutex of the gorilla codec (supported by -race runs of the concurrent writer stream in the thorough tier).",
+        "lean_modules": ["Vipnode.Props.C17"],
+        "streams": [
+            {"name": "codec-stream", "component": "codec", "cases": {"quick": 150, "thorough": 2000}, "no_shrink": True},
+            {"name": "codec-ws", "component": "codec", "gen": "codec-ws", "cases": {"quick": 9, "thorough": 60}, "no_shrink": True, "race": True},
+        ],
+        "race": True,
+        "monitor": monitors.c17_codec,
+    },
     "C12": {
         "level_text": "Contract clauses (unregistered = error, balances follow the wallet, trial migrated exactly once and shared, active-host query contract, statistics = true counts, ledger effect of every operation, well-formedness of every reachable store) are Lean theorems about the executable reference model of the documented store contract, for all states and arguments; both drivers are compared with that model op by op on generated histories, so a driver that deviates from the other deviates from the model.",
         "level_note": "Theorems are about Model/Store.lean; its tie to memory.go/badger.go is differential (sampled). Trusted: badger transaction atomicity, gob round-trip, the harness's clock bracketing.",
